@@ -156,6 +156,31 @@ thread_local! {
     static EMBED: RefCell<String> = RefCell::new(String::with_capacity(64 * 1024));
 }
 
+/// parse functions a user function may call for its nested parse (set once by the driver)
+pub static NESTED_TARGETS: std::sync::OnceLock<Vec<fn(&str, u8, u64) -> Raw>> = std::sync::OnceLock::new();
+thread_local! {
+    static NESTED_COUNT: Cell<usize> = Cell::new(0);
+}
+pub fn nested_parses_done() -> usize {
+    NESTED_COUNT.with(|c| c.get())
+}
+fn nested_parse() {
+    let Some(targets) = NESTED_TARGETS.get() else { return };
+    if targets.is_empty() {
+        return;
+    }
+    let k = NESTED_COUNT.with(|c| {
+        c.set(c.get() + 1);
+        c.get()
+    });
+    const TEXTS: &[&str] = &["", "a", "a b", "(a)", "b+b", "é x", "  zz"];
+    let parse = targets[k % targets.len()];
+    let text = TEXTS[k % TEXTS.len()];
+    let keep = CTX_CALLS.with(|c| c.borrow().len());
+    let _ = verif_core::util::catch(|| parse(text, MODE_PLAIN, 0));
+    CTX_CALLS.with(|c| c.borrow_mut().truncate(keep));
+}
+
 pub const MODE_PLAIN: u8 = 0;
 pub const MODE_INDENTED: u8 = 1;
 pub const MODE_REC: u8 = 2;
@@ -167,6 +192,9 @@ pub fn observe(parse: fn(&str, u8, u64) -> Raw, input: &str, mode: u8, salt: u64
     FUEL.with(|f| f.set(0));
     INPUT_LEN.with(|l| l.set(input.len()));
     verif_core::hooks::set_panic_mode(salt == verif_core::hooks::PANIC_SALT);
+    // for half of the plain parses every user function first runs another, complete parse (of another rule, on another
+    // text) before it answers: a parse nested inside the parse in progress must not disturb it
+    verif_core::hooks::set_nested(if mode == MODE_PLAIN && input.len() % 2 == 1 { Some(nested_parse as fn()) } else { None });
     // the plain mode parses a slice from the MIDDLE of a larger, reused buffer: text that is not the input lies directly
     // before and behind it (a continuation that looks like more input), and successive inputs share their address
     let r = if mode == MODE_PLAIN {
@@ -189,6 +217,7 @@ pub fn observe(parse: fn(&str, u8, u64) -> Raw, input: &str, mode: u8, salt: u64
         verif_core::util::catch(|| parse(input, mode, salt))
     };
     verif_core::hooks::set_panic_mode(false);
+    verif_core::hooks::set_nested(None);
     let hooks = verif_core::hooks::drain_log();
     let trace = TRACE.with(|t| std::mem::take(&mut *t.borrow_mut()));
     let ctx_calls = CTX_CALLS.with(|c| std::mem::take(&mut *c.borrow_mut()));
